@@ -28,12 +28,27 @@
 //   jobend <job> => <status>                    0 = child exited normally
 //   frbfault / salsa20asmfault <same lhs> => <signal | 1000+exit code>
 //   <data> encoding: mode 0 = all bytes; mode 1 (len > 1024) = digest of every 256-byte chunk, first 64, last 64 bytes
+//
+// Big requests (len > 2^21: 2^24+small in every run; 2^31±small, 2^32-1, 2^32+small, 2^33+small in the part
+// VERIF_SALSA_PART=huge of the thorough tier) are NOT re-generated in Lean.  The whole buffer is compared with the
+// portable C Salsa20 here (multi-threaded, random access by block counter) and sampled windows go to the driver, which
+// computes them from `Spec.Salsa20.block key nonce (offset/64 + i)` directly:
+//   frbbig <frb lhs> => <seedcalls> <redzone_ok> <mismatching bytes> <first mismatching offset | -1> [wb: statics]
+//   frbwin <off> <wlen> <kind> <frb lhs> => <bytes [off, off+wlen) of the buffer>
+//   salsa20asmbig <len> <align> <side> <key:32> <nonce:8> => <redzone_ok> <mismatching bytes> <first | -1>
+//   salsa20asmwin <off> <wlen> <kind> <len> <align> <side> <key:32> <nonce:8> => <bytes>
+//   kind: 0 head, 1 tail, 2/3/4/5 around multiples of 2^32/2^31/2^24/2^16, 6/7 last 256-/64-byte boundary,
+//         8 around len mod 2^k (k = 32, 31, 24, 16: where a length truncated to k bits would stop), 9 one per 64 MiB, 10 random
+// The buffer is pre-filled with non-zero bytes (the routine zero-fills the buffer and then XORs the keystream into it: a
+// zero-fill that stops early is visible only on non-zero memory).
 #include "common.hpp"
 #include <signal.h>
 #include <sys/mman.h>
 #include <sys/wait.h>
+#include <time.h>
 #include <unistd.h>
 #include <string>
+#include <thread>
 #include <utility>
 #include <vector>
 
@@ -121,6 +136,69 @@ static void ref_qr(u32 y[4], u32 z[4]) {
   z[0] = y[0] ^ ROTL(z[3] + z[2], 18);
 }
 
+// The same flat double-round on four consecutive blocks at once (GCC vector extension, lane l = block j0+l), used only
+// to compare buffers of several GiB (verify_big): 6 x faster than ref_core at -O1.  It is tied to ref_core by a self-test
+// (`vector` lines, incl. counters around 2^32) and, through the sampled windows, to the Lean specification.
+#pragma GCC push_options
+#pragma GCC optimize("O3")
+typedef u32 v4u __attribute__((vector_size(16)));
+#define VROTL(v, c) (((v) << (c)) | ((v) >> (32 - (c))))
+// in[16] = the input words of the block (words 8, 9 = the 64-bit block counter, overwritten per lane)
+__attribute__((no_sanitize("undefined"))) static void ref_core4(u32 out[4][16], const u32 in[16], uint64_t j0) {
+  v4u x[16], j[16];
+  for (int i = 0; i < 16; i++) j[i] = (v4u){in[i], in[i], in[i], in[i]};
+  for (int l = 0; l < 4; l++) { uint64_t c = j0 + l; j[8][l] = (u32)c; j[9][l] = (u32)(c >> 32); }
+  for (int i = 0; i < 16; i++) x[i] = j[i];
+  for (int r = 0; r < 20; r += 2) {
+    x[4] ^= VROTL(x[0] + x[12], 7);   x[8] ^= VROTL(x[4] + x[0], 9);
+    x[12] ^= VROTL(x[8] + x[4], 13);  x[0] ^= VROTL(x[12] + x[8], 18);
+    x[9] ^= VROTL(x[5] + x[1], 7);    x[13] ^= VROTL(x[9] + x[5], 9);
+    x[1] ^= VROTL(x[13] + x[9], 13);  x[5] ^= VROTL(x[1] + x[13], 18);
+    x[14] ^= VROTL(x[10] + x[6], 7);  x[2] ^= VROTL(x[14] + x[10], 9);
+    x[6] ^= VROTL(x[2] + x[14], 13);  x[10] ^= VROTL(x[6] + x[2], 18);
+    x[3] ^= VROTL(x[15] + x[11], 7);  x[7] ^= VROTL(x[3] + x[15], 9);
+    x[11] ^= VROTL(x[7] + x[3], 13);  x[15] ^= VROTL(x[11] + x[7], 18);
+    x[1] ^= VROTL(x[0] + x[3], 7);    x[2] ^= VROTL(x[1] + x[0], 9);
+    x[3] ^= VROTL(x[2] + x[1], 13);   x[0] ^= VROTL(x[3] + x[2], 18);
+    x[6] ^= VROTL(x[5] + x[4], 7);    x[7] ^= VROTL(x[6] + x[5], 9);
+    x[4] ^= VROTL(x[7] + x[6], 13);   x[5] ^= VROTL(x[4] + x[7], 18);
+    x[11] ^= VROTL(x[10] + x[9], 7);  x[8] ^= VROTL(x[11] + x[10], 9);
+    x[9] ^= VROTL(x[8] + x[11], 13);  x[10] ^= VROTL(x[9] + x[8], 18);
+    x[12] ^= VROTL(x[15] + x[14], 7); x[13] ^= VROTL(x[12] + x[15], 9);
+    x[14] ^= VROTL(x[13] + x[12], 13); x[15] ^= VROTL(x[14] + x[13], 18);
+  }
+  for (int i = 0; i < 16; i++) { v4u t = x[i] + j[i]; for (int l = 0; l < 4; l++) out[l][i] = t[l]; }
+}
+#pragma GCC pop_options
+// blocks j0 … j0+3 of the stream (key, nonce) as 256 bytes
+static void ref_blocks4(u8 out[256], const u8 key[32], const u8 nonce[8], uint64_t j0) {
+  u8 n16[16] = {0}, in[64];
+  memcpy(n16, nonce, 8);
+  ref_expand32(in, key, n16);
+  u32 w[16], o[4][16];
+  for (int i = 0; i < 16; i++) w[i] = ld32(in + 4 * i);
+  ref_core4(o, w, j0);
+  for (int l = 0; l < 4; l++) for (int i = 0; i < 16; i++) st32(out + 64 * l + 4 * i, o[l][i]);
+}
+// self-test: ref_blocks4 == four calls of ref_core, random keys/nonces, counters incl. 2^32-2 … 2^32+1 and ≥ 2^40
+static bool ref_blocks4_selftest(Rng& g) {
+  for (int t = 0; t < 200; t++) {
+    u8 key[32], nonce[8], n16[16], in[64], a[256], b[256];
+    for (auto& x : key) x = (u8)g.next();
+    for (auto& x : nonce) x = (u8)g.next();
+    uint64_t j0 = t < 8 ? 0xfffffffcULL + t : t < 16 ? (g.next() >> g.below(40)) : g.below(1ULL << 28);
+    ref_blocks4(a, key, nonce, j0);
+    memcpy(n16, nonce, 8);
+    for (int l = 0; l < 4; l++) {
+      for (int i = 0; i < 8; i++) n16[8 + i] = (u8)((j0 + l) >> (8 * i));
+      ref_expand32(in, key, n16);
+      ref_core(b + 64 * l, in);
+    }
+    if (memcmp(a, b, 256)) return false;
+  }
+  return true;
+}
+
 // ---------------------------------------------------------------------------- output encoding
 // two polynomial hashes modulo the primes 2^31-1 and 2^31-19 (any single-byte difference changes both), packed in one integer
 static const uint64_t DP1 = 2147483647ULL, DR1 = 1234567891ULL, DP2 = 2147483629ULL, DR2 = 987654323ULL;
@@ -152,7 +230,7 @@ struct Arena {
   size_t size = 0;
   void init(size_t bytes) {
     size = (bytes + PAGE - 1) / PAGE * PAGE;
-    u8* base = (u8*)mmap(nullptr, size + 2 * PAGE, PROT_NONE, MAP_PRIVATE | MAP_ANONYMOUS, -1, 0);
+    u8* base = (u8*)mmap(nullptr, size + 2 * PAGE, PROT_NONE, MAP_PRIVATE | MAP_ANONYMOUS | MAP_NORESERVE, -1, 0);
     if (base == MAP_FAILED) { perror("mmap"); exit(3); }
     data = base + PAGE;
     if (mprotect(data, size, PROT_READ | PROT_WRITE)) { perror("mprotect"); exit(3); }
@@ -174,6 +252,14 @@ struct Arena {
     size_t lo, hi; window(buf, len, lo, hi);
     for (size_t i = lo; i < hi; i++) data[i] = pat(i);
   }
+  // big requests: the red zones get the position-dependent pattern, the buffer itself a constant non-zero byte (memset speed)
+  void fill_big(u8* buf, size_t len) {
+    size_t lo, hi; window(buf, len, lo, hi);
+    size_t off = buf - data;
+    for (size_t i = lo; i < off; i++) data[i] = pat(i);
+    memset(buf, 0xA5, len);
+    for (size_t i = off + len; i < hi; i++) data[i] = pat(i);
+  }
   bool redzone_ok(const u8* buf, size_t len) const {
     size_t lo, hi; window(buf, len, lo, hi);
     size_t off = buf - data;
@@ -183,6 +269,92 @@ struct Arena {
   }
 };
 static Arena g_arena;
+static Arena g_big;                          // for requests > BIG_FROM bytes (pages are touched in the forked children only)
+static const size_t BIG_FROM = (size_t)1 << 21;
+static uint64_t g_winseed = 1;
+static unsigned g_threads = 1;
+
+// ---------------------------------------------------------------------------- big requests: whole-buffer verdict + windows
+struct BigVerdict { uint64_t mism; long long first; };
+static double now_s() { struct timespec ts; clock_gettime(CLOCK_MONOTONIC, &ts); return ts.tv_sec + 1e-9 * ts.tv_nsec; }
+// portable C over the whole buffer, block ranges split over threads (block j depends on (key, nonce, j) only)
+static BigVerdict verify_big(const u8* buf, size_t len, const u8 nonce[8], const u8 key[32]) {
+  uint64_t nblk = (len + 63) / 64;
+  unsigned T = nblk < 8192 ? 1 : g_threads;
+  std::vector<BigVerdict> part(T, BigVerdict{0, -1});
+  auto work = [&](unsigned t) {
+    uint64_t lo = nblk / T * t + (t < nblk % T ? t : nblk % T), hi = lo + nblk / T + (t < nblk % T ? 1 : 0);
+    u8 n16[16], in[64], blk[256];
+    memcpy(n16, nonce, 8);
+    BigVerdict v{0, -1};
+    auto cmp = [&](const u8* exp, uint64_t o, size_t m) {
+      if (memcmp(exp, buf + o, m))
+        for (size_t i = 0; i < m; i++)
+          if (exp[i] != buf[o + i]) { if (v.first < 0) v.first = (long long)(o + i); v.mism++; }
+    };
+    uint64_t j = lo;
+    for (; j + 4 <= hi && (j + 4) * 64 <= len; j += 4) {   // four full blocks at once
+      ref_blocks4(blk, key, nonce, j);
+      cmp(blk, j * 64, 256);
+    }
+    for (; j < hi; j++) {                                   // the rest (and the partial last block) with ref_core
+      for (int i = 0; i < 8; i++) n16[8 + i] = (u8)(j >> (8 * i));
+      ref_expand32(in, key, n16);
+      ref_core(blk, in);
+      uint64_t o = j * 64;
+      cmp(blk, o, len - o < 64 ? (size_t)(len - o) : 64);
+    }
+    part[t] = v;
+  };
+  if (T == 1) work(0);
+  else {
+    std::vector<std::thread> th;
+    for (unsigned t = 0; t < T; t++) th.emplace_back(work, t);
+    for (auto& x : th) x.join();
+  }
+  BigVerdict r{0, -1};
+  for (auto& v : part) { r.mism += v.mism; if (r.first < 0) r.first = v.first; }
+  return r;
+}
+
+struct Win { uint64_t off; unsigned wlen; int kind; };
+static std::vector<Win> windows_of(uint64_t len, Rng& g) {
+  std::vector<Win> w;
+  typedef long long ll;
+  auto add = [&](ll lo, ll hi, int kind) {   // [lo, hi) clipped to the buffer, in pieces of at most 128 bytes
+    if (lo < 0) lo = 0;
+    if (hi > (ll)len) hi = (ll)len;
+    for (ll o = lo; o < hi; o += 128) w.push_back({(uint64_t)o, (unsigned)(hi - o < 128 ? hi - o : 128), kind});
+  };
+  auto straddle = [&](uint64_t b, int kind) { if (b <= len) add((ll)b - 64, (ll)b + 64, kind); };
+  add(0, 384, 0);
+  add((ll)len - 256, (ll)len, 1);
+  for (uint64_t m = 1; (m << 32) <= len; m++) straddle(m << 32, 2);
+  for (uint64_t m = 1; (m << 31) <= len; m++) straddle(m << 31, 3);
+  for (uint64_t m = 1; (m << 24) <= len; m++) straddle(m << 24, 4);
+  uint64_t n16 = len >> 16;
+  for (uint64_t m = 1; m <= 4 && m <= n16; m++) straddle(m << 16, 5);
+  for (uint64_t m = n16 > 4 ? n16 - 3 : 1; m <= n16; m++) straddle(m << 16, 5);
+  for (int i = 0; i < 32 && n16; i++) straddle((1 + g.below(n16)) << 16, 5);
+  straddle(len - len % 256, 6);
+  straddle(len - len % 64, 7);
+  static const int K[] = {32, 31, 24, 16};
+  for (int k : K) { uint64_t t = len & (((uint64_t)1 << k) - 1); if (t < len) add((ll)t - 64, (ll)t + 64, 8); }
+  for (uint64_t o = 0; o + ((uint64_t)1 << 26) <= len; o += (uint64_t)1 << 26) {
+    uint64_t r = g.below(((uint64_t)1 << 26) - 128);
+    add((ll)(o + r), (ll)(o + r + 128), 9);
+  }
+  for (int i = 0; i < 64 && len > 128; i++) { uint64_t o = g.below(len - 128); add((ll)o, (ll)o + 128, 10); }
+  return w;
+}
+static void put_windows(const char* op, const std::string& lhs_rest, const u8* buf, uint64_t len, uint64_t salt) {
+  Rng gw(g_winseed * 1000003 + salt * 7919 + len);
+  for (const Win& x : windows_of(len, gw)) {
+    printf("%s %llu %u %d %s =>", op, (unsigned long long)x.off, x.wlen, x.kind, lhs_rest.c_str());
+    for (unsigned i = 0; i < x.wlen; i++) printf(" %u", buf[x.off + i]);
+    printf("\n");
+  }
+}
 
 // ---------------------------------------------------------------------------- child/parent plumbing
 static char* g_pending;                    // shared page: lhs of the line being produced (for fault reports)
@@ -243,6 +415,33 @@ static void run_history(const u8 key[32], uint64_t start, const std::vector<Req>
   for (const Req& q : reqs) {
     if (!q.emit) {
       nfl::fastrandombytes(dummy, q.len <= sizeof dummy ? q.len : sizeof dummy);
+    } else if (q.len > BIG_FROM) {
+      u8* buf = g_big.place(q.len, q.side, q.align);
+      std::string rest = std::to_string(WB) + " " + std::to_string(start) + " " + std::to_string(idx) + " " +
+                         std::to_string(q.len) + " " + std::to_string((size_t)((uintptr_t)buf & 63)) + " " +
+                         std::to_string(q.side) + key_str(key, 32) + " " + std::to_string(prev.size());
+      for (auto& pr : prev) rest += " " + std::to_string(pr.first) + " " + std::to_string(pr.second);
+      set_pending("frbbig " + rest);
+      double t0 = now_s();
+      g_big.fill_big(buf, q.len);
+      double t1 = now_s();
+      nfl::fastrandombytes(buf, q.len);
+      double t2 = now_s();
+      bool rz = g_big.redzone_ok(buf, q.len);
+      u8 nn[8];
+      uint64_t nv = start + idx;
+      for (int i = 0; i < 8; i++) nn[i] = (u8)(nv >> (8 * i));
+      BigVerdict v = verify_big(buf, q.len, nn, key);
+      if (getenv("VERIF_SALSA_TIMING")) fprintf(stderr, "len %zu: fill %.2f s, fastrandombytes %.2f s, verify %.2f s\n", q.len, t1 - t0, t2 - t1, now_s() - t2);
+      printf("frbbig %s => %d %d %llu %lld", rest.c_str(), g_seedcalls, rz ? 1 : 0, (unsigned long long)v.mism, v.first);
+#ifdef FRB_WHITEBOX
+      for (int i = 0; i < 8; i++) printf(" %u", nfl::nonce[i]);
+      printf(" %d", nfl::init);
+      for (int i = 0; i < 32; i++) printf(" %u", nfl::key[i]);
+#endif
+      printf("\n");
+      put_windows("frbwin", rest, buf, q.len, nv);
+      fflush(stdout);
     } else {
       u8* buf = g_arena.place(q.len, q.side, q.align);
       std::string lhs = "frb " + std::to_string(WB) + " " + std::to_string(start) + " " + std::to_string(idx) + " " +
@@ -316,6 +515,22 @@ static void asm_call(const u8 key[32], const u8 nonce[8], size_t len, int side, 
   put_data(stdout, buf, len);
   printf("\n");
   fflush(stdout);
+}
+
+// One direct call of the assembly with a big length: `salsa20asmbig` verdict line + `salsa20asmwin` windows.
+static void asm_call_big(const u8 key[32], const u8 nonce[8], size_t len, int side, size_t align) {
+  u8* buf = g_big.place(len, side, align);
+  std::string rest = std::to_string(len) + " " + std::to_string((size_t)((uintptr_t)buf & 63)) + " " +
+                     std::to_string(side) + key_str(key, 32) + key_str(nonce, 8);
+  set_pending("salsa20asmbig " + rest);
+  g_big.fill_big(buf, len);
+  nfl_crypto_stream_salsa20_amd64_xmm6(buf, len, nonce, key);
+  bool rz = g_big.redzone_ok(buf, len);
+  BigVerdict v = verify_big(buf, len, nonce, key);
+  printf("salsa20asmbig %s => %d %llu %lld\n", rest.c_str(), rz ? 1 : 0, (unsigned long long)v.mism, v.first);
+  put_windows("salsa20asmwin", rest, buf, len, ld32(nonce));
+  fflush(stdout);
+  g_pending[0] = 0;
 }
 
 // Length classes = one representative (or more) per route through the assembly.  The routine has a 4-blocks-at-a-time loop
@@ -473,6 +688,8 @@ static void spec_vectors(Rng& g) {
   u8 ek[32] = {0x80}, en[8] = {0};
   ref_stream(out, 64, en, ek); vec(!memcmp(out, EC, 64));
   nfl_crypto_stream_salsa20_amd64_xmm6(out, 64, en, ek); vec(!memcmp(out, EC, 64));
+  // the 4-lane form of the portable core used on multi-GiB buffers == ref_core
+  vec(ref_blocks4_selftest(g));
   // random and structured inputs of the core and the quarterround
   size_t nb = thorough() ? 2000 : 150;
   for (size_t t = 0; t < nb; t++) {
@@ -511,6 +728,68 @@ int main() {
   if (g_pending == MAP_FAILED) { perror("mmap"); return 3; }
   int job = 0;
   auto rnd_key = [&](u8 k[32]) { for (int i = 0; i < 32; i++) k[i] = (u8)g.next(); };
+  // big requests.  VERIF_SALSA_PART=huge (thorough tier, run once per build): ONLY the requests of 2^27 … 2^33+100 bytes;
+  // otherwise: the ordinary plan, which includes the 2^24+small / 2^26+small requests (arena of 64 MiB).
+  const char* part = getenv("VERIF_SALSA_PART");
+  const bool huge = part && !strcmp(part, "huge");
+  g_winseed = seed;
+  g_threads = std::thread::hardware_concurrency();
+  if (g_threads < 1) g_threads = 1;
+  if (g_threads > 16) g_threads = 16;
+  const uint64_t P24 = 1ULL << 24, P26 = 1ULL << 26, P31 = 1ULL << 31, P32 = 1ULL << 32, P33 = 1ULL << 33;
+  static const uint64_t SMALL[] = {0, 1, 63, 64, 100, 255, 256, 257, 4500};   // low bits of a length whose high part is non-zero
+  bool do33 = false;
+  if (huge) {
+    uint64_t avail = (uint64_t)sysconf(_SC_AVPHYS_PAGES) * (uint64_t)sysconf(_SC_PAGESIZE);
+    if (avail < (6ULL << 30)) { fprintf(stderr, "huge part: %llu MiB of free memory, 6 GiB needed\n", (unsigned long long)(avail >> 20)); return 3; }
+    do33 = avail >= (12ULL << 30);
+    g_big.init((do33 ? P33 : P32) + (1u << 16));
+  } else {
+    g_big.init(P26 + (1u << 16));
+  }
+  // a history of big requests: sides rotate (flush to the trailing guard page / to the leading one / interior at a random alignment),
+  // small requests in between keep the request counter and the route through the assembly varied
+  auto big_history = [&](uint64_t start, std::vector<uint64_t> lens, bool small_between) {
+    u8 k[32];
+    rnd_key(k);
+    uint64_t js = g.next();
+    run_job(job++, [&] {
+      Rng gj(js);
+      std::vector<Req> r;
+      size_t t = gj.below(3);
+      for (uint64_t l : lens) {
+        r.push_back({(size_t)l, (int)(t++ % 3), gj.below(64), true});
+        if (small_between) r.push_back({rnd_len(gj) % 400, (int)gj.below(3), gj.below(64), true});
+      }
+      run_history(k, start, r);
+    });
+  };
+  auto big_asm = [&](uint64_t len, int nonce_kind) {
+    u8 k[32], n[8];
+    rnd_key(k);
+    for (int i = 0; i < 8; i++) n[i] = nonce_kind == 0 ? (u8)g.next() : nonce_kind == 1 ? (u8)(1 + g.below(255)) : (u8)(i < 4 ? 0 : 1 + g.below(255));
+    int side = (int)g.below(3);
+    size_t al = g.below(64);
+    run_job(job++, [&] { asm_call_big(k, n, (size_t)len, side, al); });
+  };
+  if (huge) {
+#ifndef FRB_WHITEBOX
+    big_history(0, {(1ULL << 27) + 100, (1ULL << 28) + 255, (1ULL << 30) + 64}, true);
+    big_history(0, {P31 - 1, P31, P31 + 100, P31 + 256}, true);
+    big_history(0, {P32 - 1, P32 + SMALL[0], P32 + SMALL[1], P32 + SMALL[2], P32 + SMALL[3]}, true);
+    big_history(0, {P32 + SMALL[4], P32 + SMALL[5], P32 + SMALL[6], P32 + SMALL[7], P32 + SMALL[8]}, false);
+    big_history(0, {P32 + (1ULL << 16) + 100}, false);
+    if (do33) big_history(0, {P33 + 100}, false);
+    big_asm(P32 + 63, 0);
+    big_asm(P32 + 256, 1);
+    big_asm(P31 + 255, 2);
+#else
+    big_history(0xffffffffULL, {P32 + 100}, true);                // request numbers 2^32-1, 2^32
+    big_history(0x8123456789abcdefULL, {P32 + 255, P31 + 64}, true);
+    big_history(0xfffffffffffffffeULL, {P32 + 1}, true);          // … 2^64-2, 2^64-1 (wrap)
+#endif
+    return 0;
+  }
   static const size_t BASE[] = {0, 1, 63, 64, 65, 255, 256, 257};
   static const size_t MORE[] = {0, 1, 2, 63, 64, 65, 127, 128, 129, 191, 192, 193, 255, 256, 257, 319, 320, 321, 511, 512, 513, 1023, 1024, 1025, 0, 64};
   const size_t BIG = (1u << 20) + 1;
@@ -557,6 +836,26 @@ int main() {
   run_job(job++, [&] { run_history(key, 0, {{0, 0, 0, true}, {0, 1, 0, true}, {0, 2, 5, true}, {65, 0, 0, true}, {0, 0, 0, true}, {1, 0, 0, true}}); });
   memset(key, 0xff, 32);
   run_job(job++, [&] { run_history(key, 0, {{4097, 0, 0, true}, {0, 2, 9, true}, {63, 1, 0, true}, {257, 0, 0, true}}); });
+  // lengths whose low 16 bits fall in the small classes while the high part is non-zero (k·2^16 + small): whole output through Lean
+  rnd_key(key);
+  js = g.next();
+  run_job(job++, [&] {
+    Rng gj(js);
+    std::vector<Req> r;
+    size_t t = 0;
+    for (uint64_t sm : SMALL) if (sm < 4500) r.push_back({(size_t)(65536 + sm), (int)(t++ % 3), gj.below(64), true});
+    r.push_back({2 * 65536 + 100, 0, 0, true});
+    r.push_back({3 * 65536 + 255, 1, 0, true});
+    r.push_back({4 * 65536 + 64, 2, gj.below(64), true});
+    r.push_back({8 * 65536 + 1, 2, gj.below(64), true});
+    run_history(key, 0, r);
+  });
+  // 2^24 + small and 2^26 + small: big requests (portable C verdict on the whole buffer + windows for the driver)
+  big_history(0, {P24 + SMALL[(seed + 0) % 9], P24 + SMALL[(seed + 3) % 9], P24 + SMALL[(seed + 6) % 9]}, true);
+  big_history(0, {P24 + SMALL[(seed + 1) % 9], P24 + SMALL[(seed + 4) % 9], P24 + SMALL[(seed + 7) % 9]}, false);
+  big_history(0, {P24 + SMALL[(seed + 2) % 9], P24 + SMALL[(seed + 5) % 9], P24 + SMALL[(seed + 8) % 9], P26 + SMALL[(seed + 5) % 8]}, false);
+  big_asm(P24 + SMALL[1 + seed % 8], 0);
+  big_asm(P24 + SMALL[1 + (seed + 4) % 8], 2);
   // J4…: random histories, random placement
   for (size_t h = 0; h < (th ? 12u : 3u); h++) {
     rnd_key(key);
@@ -629,6 +928,9 @@ int main() {
       }
     }
   }
+  // big requests at request numbers whose high nonce word is non-zero / about to become non-zero
+  big_history(0xfffffffeULL, {P24 + SMALL[1 + seed % 8], P24 + SMALL[1 + (seed + 3) % 8], P24 + SMALL[1 + (seed + 6) % 8]}, false);
+  big_history(g.next() | 0x0101010101010101ULL, {P24 + SMALL[(seed + 2) % 9], P26 + SMALL[(seed + 7) % 9]}, true);
   for (size_t h = 0; h < (th ? 40u : 6u); h++) {
     rnd_key(key);
     uint64_t st = g.next() >> g.below(64);
